@@ -136,6 +136,42 @@ theorem C07_no_marker_open (s : St) (db : DB) (g : GDir) (cfg' : Cfg)
   · intro n hn
     exact MergeP.get_set_ne _ _ _ _ hn
 
+/-- **C07, `Merge` gets rid of what an earlier `Merge` left behind.**  A second `Merge` without a
+    restart in between finds the FINISHED, not yet adopted output of the first one and removes that
+    directory before it starts over.  Removing a directory is not atomic (`os.RemoveAll` unlinks file
+    by file), so the process can die with ANY part of its content still there.  The repaired `Merge`
+    unlinks the marker first; from then on the directory has no marker, whatever else is left of it
+    (`md'` is arbitrary but for `marker = none`: any subset of the rewritten files, with or without the
+    hint file, any bytes).  Every such image is ignored by `Open`: `Close`/process death and `Open`
+    under any valid configuration restore exactly the mapping of `s`, and the invariant.
+    (Before the marker is unlinked the directory is the complete output of a finished merge, which
+    `C07_crash_safe` covers; the unlink itself is atomic.) -/
+theorem C07_leftover_removal_crash (s : St) (db : DB) (g : GDir) (cfg' : Cfg) (md' : DirSt)
+    (hdb : s.db = some db) (hinv : Inv s db g) (hmk : md'.marker = none) (hcfg : cfg'.Valid) :
+    plan (s.world.set (mergeDirName db.dir) md') db.dir = none ∧
+    ∃ s' db', openDB (close ⟨s.world.set (mergeDirName db.dir) md', s.db⟩).1 db.dir cfg' = (s', .ok) ∧
+      s'.db = some db' ∧ db'.index = db.index ∧ (∀ k, absGet s' db' k = absGet s db k) ∧ Inv s' db' g := by
+  have hne := mname_ne db.dir
+  have hplan : plan (s.world.set (mergeDirName db.dir) md') db.dir = none :=
+    plan_none_of_no_marker (MergeP.get_set_self _ _ _) hmk
+  have hget : (s.world.set (mergeDirName db.dir) md').get db.dir = s.world.get db.dir :=
+    MergeP.get_set_ne _ _ _ _ hne.symm
+  have hdir : ∃ d, (s.world.set (mergeDirName db.dir) md').get db.dir = some d ∧ d.locked = true ∧ Matches d.data g := by
+    obtain ⟨d, h1, h2, h3⟩ := hinv.dir
+    exact ⟨d, by rw [hget]; exact h1, h2, h3⟩
+  have hinv1 : Inv ⟨s.world.set (mergeDirName db.dir) md', s.db⟩ db g :=
+    ⟨hdir, hinv.asc, hinv.active, hinv.recs, hinv.index, hinv.sorted, hinv.counters, hinv.nobatch⟩
+  obtain ⟨_, s', db', _, hopen, hs', _, hix, _, habs, hinv', _⟩ :=
+    C07_no_marker_open ⟨s.world.set (mergeDirName db.dir) md', s.db⟩ db g cfg' hdb hinv1 hplan hcfg
+  refine ⟨hplan, s', db', hopen, hs', hix, ?_, hinv'⟩
+  intro k
+  rw [habs k]
+  apply absGet_congr
+  · rfl
+  · intro id
+    simp only [dirOf]
+    rw [hget]
+
 /-! ## crash safety at the level of `Open` and the mapping -/
 
 theorem crashes_dir (dir : String) (ks : List Nat) : ∀ (w : World) (d : DirSt), w.get dir = some d →
@@ -340,6 +376,17 @@ def listing (w : World) (dir : String) : Option (List (Nat × List UInt8) × Opt
 #guard (List.range 8).map (fun k => (adopt (applyPrefix exW "d" k) "d").2) == [3, 3, 3, 3, 3, 0, 0, 0]
 -- a merge directory without a marker is ignored
 #guard steps [("d", DirSt.empty), ("d-merge", { DirSt.empty with data := [(0, fb 1)], hint := some ⟨#[7]⟩ })] "d" == []
+
+/-- the finished merge directory of `exW` after `os.RemoveAll` has unlinked the rewritten file 1 only -/
+def exHalfRemoved : DirSt := ⟨[(0, fb 20)], some ⟨#[7]⟩, some (markerBytes 3 2), false⟩
+
+-- the marker must go FIRST (evaluated): with the marker still in place and one rewritten file already unlinked
+-- (`os.RemoveAll` got that far), the next `Open` takes the missing file for "already moved", keeps the stale original
+-- in its place and deletes the originals above `count` - `exW` loses the rewritten content of file 1 and the original
+-- file 2.  With the marker gone the same leftover is ignored (`C07_leftover_removal_crash`).
+#guard listing (adopt (exW.set "d-merge" exHalfRemoved) "d").1 "d" == some ([(0, [20]), (1, [11]), (3, [13])], some [7], false)
+#guard listing (adopt (exW.set "d-merge" { exHalfRemoved with marker := none }) "d").1 "d"
+  == some ([(0, [10]), (1, [11]), (2, [12]), (3, [13])], none, false)
 
 /-- the hypothesis of `C07_adopt_idempotent` holds for the example -/
 example : DirsAsc exW "d" := by
